@@ -61,40 +61,6 @@ class Generator {
   template <class Sink>
   void stream(const Env& env, const std::vector<Typed>& S, const std::vector<Typed>& L, int binderDepthLeft, Sink&& consider) const {
     auto isTerm = [](const Typed& t) { return !t.type.logic; };
-    // binary term operators, predicates
-    for (K k : { K::Plus, K::Minus, K::Mult, K::Union, K::Intersect, K::SetMinus, K::SymMinus, K::Decart,
-                 K::Gr, K::Ls, K::Ge, K::Le, K::Eq, K::Ne, K::In, K::NotIn, K::Subset, K::SubsetEq, K::NotSubset })
-      for (auto& a : S) for (auto& b : S) if (isTerm(a) && isTerm(b)) consider(mk(k, { a.node, b.node }));
-    for (auto& a : S) for (auto& b : S) { consider(mk(K::Tuple, { a.node, b.node })); consider(mk(K::Enumeration, { a.node, b.node })); }
-    // unary
-    for (auto& a : S) {
-      for (K k : { K::Boolean, K::Card, K::Bool, K::Debool, K::Reduce }) consider(mk(k, { a.node }));
-      consider(mk(K::Enumeration, { a.node }));
-      for (auto idx : std::vector<std::vector<int>>{ { 1 }, { 2 }, { 1, 2 }, { 2, 1 }, { 3 }, { 1, 1 } }) { consider(mkidx(K::BigPr, idx, { a.node })); consider(mkidx(K::SmallPr, idx, { a.node })); }
-    }
-    // filters: Fi1[P](A), Fi2[P](A), Fi1,2[P,Q](A), Fi1,2[P](A)
-    for (auto& a : S) for (auto& p : S) {
-      consider(mkidx(K::Filter, { 1 }, { p.node, a.node })); consider(mkidx(K::Filter, { 2 }, { p.node, a.node })); consider(mkidx(K::Filter, { 1, 2 }, { p.node, a.node }));
-    }
-    // two-parameter filters: all three operands vary together only over childless operands; otherwise one operand varies
-    for (auto& a : S) for (auto& p : S) for (auto& q : S) {
-      if (a.type.logic || p.type.logic || q.type.logic) continue;
-      const int complex = (a.node.ch.empty() ? 0 : 1) + (p.node.ch.empty() ? 0 : 1) + (q.node.ch.empty() ? 0 : 1);
-      if (complex > 1) continue;
-      if (complex == 1 && !(p.type.ty.isSet() && q.type.ty.isSet() && a.type.ty.isSet())) continue;
-      consider(mkidx(K::Filter, { 1, 2 }, { p.node, q.node, a.node }));
-    }
-    // calls of the context's callables
-    for (auto& [name, g] : ctx.globals) if (g.args.has_value()) {
-      const bool pred = g.type && g.type->logic;
-      const Node f = leaf(pred ? K::Predicate : K::Function, name);
-      if (g.args->size() == 1) for (auto& a : S) consider(mk(K::FuncCall, { f, a.node }));
-      if (g.args->size() == 2) for (auto& a : S) for (auto& b : S) consider(mk(K::FuncCall, { f, a.node, b.node }));
-      if (g.args->size() == 1) for (auto& a : S) for (auto& b : S) if (&a == &S[0]) consider(mk(K::FuncCall, { f, a.node, b.node }));  // wrong arity
-    }
-    // logic
-    for (auto& f : L) consider(mk(K::Not, { f.node }));
-    for (K k : { K::Equiv, K::Impl, K::Or, K::And }) for (auto& a : L) for (auto& b : L) consider(mk(k, { a.node, b.node }));
     // binders: the bound variable gets the next canonical name; the body comes from the sub-pool of the EXTENDED environment
     if (binderDepthLeft > 0 && env.size() < varNames.size()) {
       const std::string v = varNames[env.size()];
@@ -130,6 +96,40 @@ class Generator {
         }
       }
     }
+    // binary term operators, predicates
+    for (K k : { K::Plus, K::Minus, K::Mult, K::Union, K::Intersect, K::SetMinus, K::SymMinus, K::Decart,
+                 K::Gr, K::Ls, K::Ge, K::Le, K::Eq, K::Ne, K::In, K::NotIn, K::Subset, K::SubsetEq, K::NotSubset })
+      for (auto& a : S) for (auto& b : S) if (isTerm(a) && isTerm(b)) consider(mk(k, { a.node, b.node }));
+    for (auto& a : S) for (auto& b : S) { consider(mk(K::Tuple, { a.node, b.node })); consider(mk(K::Enumeration, { a.node, b.node })); }
+    // unary
+    for (auto& a : S) {
+      for (K k : { K::Boolean, K::Card, K::Bool, K::Debool, K::Reduce }) consider(mk(k, { a.node }));
+      consider(mk(K::Enumeration, { a.node }));
+      for (auto idx : std::vector<std::vector<int>>{ { 1 }, { 2 }, { 1, 2 }, { 2, 1 }, { 3 }, { 1, 1 } }) { consider(mkidx(K::BigPr, idx, { a.node })); consider(mkidx(K::SmallPr, idx, { a.node })); }
+    }
+    // filters: Fi1[P](A), Fi2[P](A), Fi1,2[P,Q](A), Fi1,2[P](A)
+    for (auto& a : S) for (auto& p : S) {
+      consider(mkidx(K::Filter, { 1 }, { p.node, a.node })); consider(mkidx(K::Filter, { 2 }, { p.node, a.node })); consider(mkidx(K::Filter, { 1, 2 }, { p.node, a.node }));
+    }
+    // two-parameter filters: all three operands vary together only over childless operands; otherwise one operand varies
+    for (auto& a : S) for (auto& p : S) for (auto& q : S) {
+      if (a.type.logic || p.type.logic || q.type.logic) continue;
+      const int complex = (a.node.ch.empty() ? 0 : 1) + (p.node.ch.empty() ? 0 : 1) + (q.node.ch.empty() ? 0 : 1);
+      if (complex > 1) continue;
+      if (complex == 1 && !(p.type.ty.isSet() && q.type.ty.isSet() && a.type.ty.isSet())) continue;
+      consider(mkidx(K::Filter, { 1, 2 }, { p.node, q.node, a.node }));
+    }
+    // calls of the context's callables
+    for (auto& [name, g] : ctx.globals) if (g.args.has_value()) {
+      const bool pred = g.type && g.type->logic;
+      const Node f = leaf(pred ? K::Predicate : K::Function, name);
+      if (g.args->size() == 1) for (auto& a : S) consider(mk(K::FuncCall, { f, a.node }));
+      if (g.args->size() == 2) for (auto& a : S) for (auto& b : S) consider(mk(K::FuncCall, { f, a.node, b.node }));
+      if (g.args->size() == 1) for (auto& a : S) for (auto& b : S) if (&a == &S[0]) consider(mk(K::FuncCall, { f, a.node, b.node }));  // wrong arity
+    }
+    // logic
+    for (auto& f : L) consider(mk(K::Not, { f.node }));
+    for (K k : { K::Equiv, K::Impl, K::Or, K::And }) for (auto& a : L) for (auto& b : L) consider(mk(k, { a.node, b.node }));
   }
 
   // sub-term pool available as bodies in an (extended) environment: leaves + variables, plus one level of constructors over them
